@@ -1,12 +1,12 @@
 (** Dispatcher of the executable model: one input line -> one observation
     line, for the generated tables and for the specified tables. *)
 From Coq Require Import String.
-From PSA Require Import Base Lines Lifecycle Regex Claims Obs CaseClaims RunC14 RunHist.
-From PSA.Spec Require Import SpecTables.
-From PSA.Gen Require Import GenConsts.
+From PSA Require Import Base Lines Lifecycle Regex Claims Obs CaseClaims RunC14 RunHist Tags Wire Codec RunCodec.
+From PSA.Spec Require Import SpecTables SpecTags.
+From PSA.Gen Require Import GenConsts GenTags.
 Open Scope N_scope.
 
-Definition run_line (cfg : ccfg) (line : bytes) : bytes :=
+Definition run_line (cfg : ccfg) (w : wcfg) (line : bytes) : bytes :=
   match tokens line with
   | p :: args =>
       if bytes_eqb p (s2b "C14") then run_c14 cfg args
@@ -14,9 +14,15 @@ Definition run_line (cfg : ccfg) (line : bytes) : bytes :=
       else if bytes_eqb p (s2b "HIST") then run_hist cfg args
       else if bytes_eqb p (s2b "HISTC") then run_histc cfg args
       else if bytes_eqb p (s2b "FILT") then run_filt args
+      else if bytes_eqb p (s2b "ENC") then run_enc w args
+      else if bytes_eqb p (s2b "DEC") then run_dec cfg w args
+      else if bytes_eqb p (s2b "RT") then run_rt cfg w args
       else bad_input
   | [] => bad_input
   end.
 
-Definition run_gen (line : bytes) : bytes := run_line gen_ccfg line.
-Definition run_spec (line : bytes) : bytes := run_line spec_ccfg line.
+Definition gen_wcfg : wcfg := {| w_p1 := gen_p1_fields; w_p2 := gen_p2_fields; w_swc := gen_swc_fields |}.
+Definition spec_wcfg : wcfg := {| w_p1 := spec_p1_fields; w_p2 := spec_p2_fields; w_swc := spec_swc_fields |}.
+
+Definition run_gen (line : bytes) : bytes := run_line gen_ccfg gen_wcfg line.
+Definition run_spec (line : bytes) : bytes := run_line spec_ccfg spec_wcfg line.
